@@ -27,7 +27,7 @@ Values == Atoms \cup L1 \cup (IF Deep THEN L2 ELSE { x \in L2 : (x.t = "list" /\
 Tails == { <<>>, <<48, 58, 126>>, <<57>>, <<58>>, <<49, 58, 97, 44>> }
 
 \* every value in the default encoding; every value containing text also in Latin-1, if it can be written in it
-Encs(v) == {"utf-8"} \cup (IF HasText(v) /\ EncodableV("latin-1", v) THEN {"latin-1"} ELSE {})
+Encs(v) == {"utf-8"} \cup (IF HasText(v) /\ EncodableV("latin-1", v) THEN {"latin-1"} ELSE {}) \cup (IF HasText(v) THEN {"utf-16-le"} ELSE {})
 Emit(v, enc) == /\ RoundTrip(v, enc) /\ \A tl \in Tails : RoundTripTail(v, enc, tl)
                 /\ PrintT(ToJson([k |-> "tnet", v |-> v, enc |-> enc, b |-> DumpE(v, enc)]))
 ASSUME \A v \in Values : \A enc \in Encs(v) : Emit(v, enc)
